@@ -224,7 +224,7 @@ func (Engine) Run(t *tape.Tape, o eng.Opts) *eng.Result {
 					tok := true
 					if e.A >= 0 {
 						k = world.PanicKindNames[e.A]
-						tok = e.A == world.PvString || e.A == world.PvError || e.A == world.PvStruct || e.A == world.PvWrapped || e.A == world.PvErrSlice || e.A == world.PvMap || e.A == world.PvEPIPE || e.A == world.PvConnReset || e.A == world.PvNotExist || e.A == world.PvFormatter || e.A == world.PvPublic || e.A == world.PvLineMapped || e.A == world.PvUnicode || e.A == world.PvUnwrapPanics || e.A == world.PvIsPanics || e.A == world.PvInlinedHelper
+						tok = e.A == world.PvString || e.A == world.PvError || e.A == world.PvStruct || e.A == world.PvWrapped || e.A == world.PvErrSlice || e.A == world.PvMap || e.A == world.PvEPIPE || e.A == world.PvConnReset || e.A == world.PvNotExist || e.A == world.PvFormatter || e.A == world.PvPublic || e.A == world.PvLineMapped || e.A == world.PvLineNoFile || e.A == world.PvUnicode || e.A == world.PvUnwrapPanics || e.A == world.PvIsPanics || e.A == world.PvInlinedHelper
 					}
 					at := idxOf(int(e.H))
 					if e.A < 0 || at < 0 {
